@@ -1532,7 +1532,112 @@ impl G<'_> {
         self.semi();
     }
 
+    /// other macro statements with simple, fixed argument shapes
+    fn misc_stmt(&mut self) {
+        self.enter("misc-stmt");
+        match self.r.below(10) {
+            0 => {
+                self.kw("%symdel");
+                self.blank();
+                self.name_expr();
+                self.pad("before-semi", true);
+            }
+            1 => {
+                self.kw("%abort");
+                if self.r.chance(1, 2) {
+                    self.blank();
+                    { let t__ = self.r.pick(&["cancel", "abend", "return 4"]); self.put(t__) };
+                }
+            }
+            2 => {
+                self.kw("%sysexec");
+                self.blank();
+                self.mtext();
+            }
+            3 => {
+                self.kw("%syscall");
+                self.blank();
+                { let t__ = self.r.pick(&["ranuni", "set", "symput"]); self.put(t__) };
+                self.pad("name-lparen", true);
+                let lp = self.pos();
+                self.put("(");
+                self.open_parens.push(lp);
+                self.p.marks.push(Mark::Delim { pos: lp, ty: TokenType::LPAREN, hidden: false });
+                let saved = self.top_level;
+                self.top_level = false;
+                let n = self.r.range(1, 3);
+                for i in 0..n {
+                    self.pad("after-delim", true);
+                    self.expr(true, ExprEnd::CommaOrParen);
+                    if i + 1 < n {
+                        self.comma();
+                    }
+                }
+                self.top_level = saved;
+                self.close_paren();
+                self.pad("before-semi", true);
+            }
+            4 => {
+                self.kw("%include");
+                self.blank();
+                { let t__ = self.r.pick(&["'file.sas'", "fref", "\"&path./x.sas\""]); self.put(t__) };
+            }
+            5 => {
+                self.kw("%copy");
+                self.blank();
+                { let t__ = self.r.pick(MNAMES); self.put(t__) };
+                self.pad("before-slash", true);
+                let pos = self.pos();
+                self.put("/");
+                self.p.marks.push(Mark::Delim { pos, ty: TokenType::FSLASH, hidden: false });
+                self.pad("after-slash", true);
+                { let t__ = self.r.pick(&["source", "src outfile=x", "lib=work source"]); self.put(t__) };
+            }
+            6 => {
+                let k = self.r.pick(&["%local", "%global"]);
+                self.kw(k);
+                self.pad("kw-slash", true);
+                self.put("/");
+                self.pad("after-slash", true);
+                self.put("readonly");
+                self.blank();
+                self.name_expr();
+                self.pad("before-assign", true);
+                let eq = self.pos();
+                self.put("=");
+                self.p.marks.push(Mark::Delim { pos: eq, ty: TokenType::ASSIGN, hidden: false });
+                self.pad("after-assign", true);
+                self.mtext();
+            }
+            7 => {
+                let k = self.r.pick(&["%input", "%window", "%display", "%syslput", "%sysrput"]);
+                self.kw(k);
+                self.blank();
+                self.name_expr();
+                if self.r.chance(1, 2) {
+                    self.put(" ");
+                    self.name_expr();
+                }
+            }
+            8 => {
+                let k = self.r.pick(&["%sysmstoreclear", "%list", "%run"]);
+                self.kw(k);
+                self.pad("before-semi", true);
+            }
+            _ => {
+                self.kw("%goto");
+                self.blank();
+                self.mref();
+            }
+        }
+        self.leave();
+        self.semi();
+    }
+
     fn stmt(&mut self, top: bool) {
+        if self.room() && self.r.chance(1, 16) {
+            return self.misc_stmt();
+        }
         let choice = if self.room() { self.r.below(24) } else { self.r.below(8) };
         match choice {
             0..=3 => self.open_stmt(),
@@ -1600,6 +1705,86 @@ pub fn gen_program(r: &mut Rng, cfg: Cfg) -> Prog {
             break;
         }
     }
+    g.p
+}
+
+/// A well-formed program wrapped in `levels` nested %macro / %do / %if-%then-%do blocks (deeper
+/// than any internal initial capacity), optionally ending in a function-style value tail.
+pub fn gen_deep_program(r: &mut Rng, cfg: Cfg, levels: usize) -> Prog {
+    let mut g = G {
+        r,
+        p: Prog::default(),
+        cfg,
+        path: Vec::new(),
+        last_semi: true,
+        in_macro: 0,
+        in_dq: 0,
+        top_level: true,
+        open_parens: Vec::new(),
+        pending_comma_del: Vec::new(),
+    };
+    // an optional closed statement first, so that there is a boundary before the deep block
+    if g.r.chance(1, 2) {
+        g.open_stmt();
+        g.put("\n");
+    }
+    let mut closers: Vec<u8> = Vec::new();
+    // the outermost level is a macro definition so that a value tail is legitimate
+    g.put("%macro deep_1;");
+    g.in_macro += 1;
+    closers.push(0);
+    g.p.kinds.insert("deep-nesting");
+    for k in 1..levels {
+        let sep = if g.r.chance(1, 4) { "\n" } else { " " };
+        g.put(sep);
+        match g.r.below(5) {
+            0 => {
+                g.put("%do;");
+                closers.push(1);
+            }
+            1 | 2 => {
+                g.put("%if &c");
+                g.put(&k.to_string());
+                g.put(" %then %do;");
+                closers.push(1);
+            }
+            3 => {
+                g.put("%do i");
+                g.put(&k.to_string());
+                g.put("=1 %to 2;");
+                closers.push(1);
+            }
+            _ => {
+                g.put("%macro deep_");
+                g.put(&(k + 1).to_string());
+                g.put(";");
+                g.in_macro += 1;
+                closers.push(0);
+            }
+        }
+    }
+    g.path = vec!["deep-nesting"; 3]; // keep inner constructs shallow
+    let n = g.r.below(3);
+    g.body_stmts(n);
+    g.path.clear();
+    let tail = g.r.chance(1, 2);
+    if tail {
+        g.value_tail();
+    }
+    while let Some(c) = closers.pop() {
+        if c == 1 {
+            g.put("%end;");
+        } else {
+            g.put("%mend;");
+            g.in_macro -= 1;
+        }
+        let sep = if g.r.chance(1, 6) { "\n" } else { " " };
+        g.put(sep);
+    }
+    g.last_semi = true;
+    let pos = g.pos() - 1;
+    g.p.marks.push(Mark::Boundary { pos });
+    g.p.max_depth = g.p.max_depth.max(levels);
     g.p
 }
 
